@@ -116,6 +116,47 @@ func runC15(c *Ctx) {
 	}
 	c.Floor("C15.Q1-once", 2)
 
+	// field names of the explicit-sync accounting are derived from their use, not assumed
+	asyncWG, expWG, expFlag, expMu := "asyncWG", "expSyncWG", "expSyncClosed", "expSyncMutex"
+	handleFn0 := c15HandleFn(c)
+	for _, f := range c.Funcs(dagsyncPkg) {
+		isWatcher := len(c.Calls(f.SSA, Call("Swap[announce.Announce]", Any(), Op("alloc", "")))) > 0 || len(c.Calls(f.SSA, Call("announce.Receiver).Next"))) > 0
+		callsHandle := handleFn0 != nil && func() bool {
+			direct := false
+			instrs(f.SSA, func(in ssa.Instruction) {
+				if ci, ok := in.(ssa.CallInstruction); ok && ci.Common().StaticCallee() == handleFn0 {
+					direct = true
+				}
+			})
+			return direct
+		}()
+		for _, cs := range c.Calls(f.SSA, Call("sync.WaitGroup).Add")) {
+			if cs.Fn != f.SSA {
+				continue
+			}
+			if x := cs.X.Args[0]; x.Op == "field" {
+				if isWatcher {
+					asyncWG = x.Name
+				} else if callsHandle {
+					expWG = x.Name
+				}
+			}
+		}
+	}
+	instrs(doClose, func(in ssa.Instruction) {
+		if st, ok := in.(*ssa.Store); ok {
+			if cv, isC := st.Val.(*ssa.Const); isC && cv.Value != nil && cv.Value.ExactString() == "true" {
+				if a := c.E(st.Addr); a.Op == "field" {
+					expFlag = a.Name
+				}
+			}
+		}
+		if ci, ok := in.(ssa.CallInstruction); ok {
+			if m, ok := Match(Call("sync.Mutex).Lock", Bind("mu")), c.CallX(ci)); ok && m["mu"].Op == "field" {
+				expMu = m["mu"].Name
+			}
+		}
+	})
 	closeClosing := findInstr(c, doClose, func(in ssa.Instruction) bool {
 		return isCallTo(c, in, Op("builtin", "close", Field("closing", Any())))
 	})
@@ -125,17 +166,17 @@ func runC15(c *Ctx) {
 			return false
 		}
 		a := c.E(st.Addr)
-		return a.Op == "field" && a.Name == "expSyncClosed"
+		return a.Op == "field" && a.Name == expFlag
 	})
 	waitExp := findInstr(c, doClose, func(in ssa.Instruction) bool {
-		return isCallTo(c, in, Call("sync.WaitGroup).Wait", Field("expSyncWG", Any())))
+		return isCallTo(c, in, Call("sync.WaitGroup).Wait", Field(expWG, Any())))
 	})
 	rcvClose := findInstr(c, doClose, func(in ssa.Instruction) bool {
 		return isCallTo(c, in, Call("announce.Receiver).Close"))
 	})
 	waitWatch := findInstr(c, doClose, func(in ssa.Instruction) bool { return isRecvFrom(c, in, "watchDone") })
 	waitAsync := findInstr(c, doClose, func(in ssa.Instruction) bool {
-		return isCallTo(c, in, Call("sync.WaitGroup).Wait", Field("asyncWG", Any())))
+		return isCallTo(c, in, Call("sync.WaitGroup).Wait", Field(asyncWG, Any())))
 	})
 	closeEvents := findInstr(c, doClose, func(in ssa.Instruction) bool {
 		return isCallTo(c, in, Op("builtin", "close", Field("inEvents", Any())))
@@ -176,10 +217,10 @@ func runC15(c *Ctx) {
 	if setClosed != nil {
 		var lock, unlock ssa.Instruction
 		instrs(doClose, func(in ssa.Instruction) {
-			if isCallTo(c, in, Call("sync.Mutex).Lock", Field("expSyncMutex", Any()))) {
+			if isCallTo(c, in, Call("sync.Mutex).Lock", Field(expMu, Any()))) {
 				lock = in
 			}
-			if isCallTo(c, in, Call("sync.Mutex).Unlock", Field("expSyncMutex", Any()))) {
+			if isCallTo(c, in, Call("sync.Mutex).Unlock", Field(expMu, Any()))) {
 				unlock = in
 			}
 		})
@@ -211,14 +252,14 @@ func runC15(c *Ctx) {
 			var add, done, lock ssa.Instruction
 			doneDeferred := false
 			instrs(f.SSA, func(in ssa.Instruction) {
-				if isCallTo(c, in, Call("sync.WaitGroup).Add", Field("expSyncWG", Any()))) {
+				if isCallTo(c, in, Call("sync.WaitGroup).Add", Field(expWG, Any()))) {
 					add = in
 				}
-				if isCallTo(c, in, Call("sync.WaitGroup).Done", Field("expSyncWG", Any()))) {
+				if isCallTo(c, in, Call("sync.WaitGroup).Done", Field(expWG, Any()))) {
 					done = in
 					_, doneDeferred = in.(*ssa.Defer)
 				}
-				if isCallTo(c, in, Call("sync.Mutex).Lock", Field("expSyncMutex", Any()))) && lock == nil {
+				if isCallTo(c, in, Call("sync.Mutex).Lock", Field(expMu, Any()))) && lock == nil {
 					lock = in
 				}
 			})
@@ -226,12 +267,12 @@ func runC15(c *Ctx) {
 				c.Bad("C15.Q2-registration", key, f.SSA.Pos(), "explicit sync entry point does not register in the explicit-sync wait group: Close can return while it is running")
 				continue
 			}
-			_, flagFalse := c.Guarded(add, Field("expSyncClosed", Any()), false)
+			_, flagFalse := c.Guarded(add, Field(expFlag, Any()), false)
 			c.Check(flagFalse, "C15.Q2-registration", key+" › closed flag tested", add.Pos(), "Add on the closed-flag-false edge", "registration does not test the closed flag: a sync can start after shutdown drained the group")
 			// mutex held at Add: Lock precedes, and no Unlock between Lock and Add on the path (Unlock calls that precede Add must be in blocks not leading to Add)
 			held := lock != nil && Precedes(lock, add)
 			instrs(f.SSA, func(in ssa.Instruction) {
-				if isCallTo(c, in, Call("sync.Mutex).Unlock", Field("expSyncMutex", Any()))) && Precedes(in, add) {
+				if isCallTo(c, in, Call("sync.Mutex).Unlock", Field(expMu, Any()))) && Precedes(in, add) {
 					held = false
 				}
 			})
@@ -501,23 +542,27 @@ func c15AsyncRegistration(c *Ctx) {
 			}
 			var add ssa.Instruction
 			instrs(f.SSA, func(o ssa.Instruction) {
-				if isCallTo(c, o, Call("sync.WaitGroup).Add", Field("asyncWG", Any()))) && Precedes(o, goi) {
+				if isCallTo(c, o, Call("sync.WaitGroup).Add", FieldT("sync.WaitGroup", Any()))) && Precedes(o, goi) {
 					add = o
 				}
 			})
 			if add == nil {
 				return
 			}
-			mc, _ := goi.Common().Value.(*ssa.MakeClosure)
-			if mc == nil {
-				c.Unk("C15.Q2b-async-registration", f.Name+" › go", goi.Pos(), "registered goroutine is not a literal; cannot check its exits")
+			var g *ssa.Function
+			if mc, ok := goi.Common().Value.(*ssa.MakeClosure); ok {
+				g = mc.Fn.(*ssa.Function)
+			} else {
+				g = goi.Common().StaticCallee()
+			}
+			if g == nil || len(g.Blocks) == 0 {
+				c.Unk("C15.Q2b-async-registration", f.Name+" › go", goi.Pos(), "registered goroutine's body cannot be resolved; cannot check its exits")
 				return
 			}
-			g := mc.Fn.(*ssa.Function)
 			var done ssa.Instruction
 			deferred := false
 			instrs(g, func(o ssa.Instruction) {
-				if isCallTo(c, o, Call("sync.WaitGroup).Done", Field("asyncWG", Any()))) {
+				if isCallTo(c, o, Call("sync.WaitGroup).Done", FieldT("sync.WaitGroup", Any()))) {
 					done = o
 					_, deferred = o.(*ssa.Defer)
 				}
